@@ -230,6 +230,19 @@ impl AlgoContext {
             &mut self.rng,
         );
 
+        #[cfg(feature = "verif-hooks")]
+        crate::verif_hooks::offspring_log_push(|| crate::verif_hooks::OffspringRecord {
+            parents: individuals_ordered.iter().map(|v| v.to_json()).collect(),
+            parent_values: individuals_ordered.iter().map(|v| (*v).clone()).collect(),
+            source: meta_params_wrapper.source.to_string(),
+            crossover_prob: meta_params_wrapper.crossover_params.crossover_prob,
+            selection_pressure: meta_params_wrapper.crossover_params.selection_pressure,
+            mutation_prob: meta_params_wrapper.mutation_params.mutation_prob,
+            mutation_scale: meta_params_wrapper.mutation_params.mutation_scale,
+            crossover_result: crossover_result.clone(),
+            mutation_result: result.clone(),
+        });
+
         trace!(
             "Offspring created:\ncrossover result:\n{}\nmutation result:\n{}",
             crossover_result.to_json(),
@@ -402,6 +415,56 @@ fn wrap(
         source,
         crossover_params,
         mutation_params,
+    }
+}
+
+#[cfg(feature = "verif-hooks")]
+pub struct VerifPopEntry {
+    pub id: usize,
+    pub key_obj_func_val: f64,
+    /// 0 = PendingEval, 1 = Ready, 2 = Final
+    pub state_tag: u8,
+    pub samples: Vec<f64>,
+    pub value: Value,
+}
+
+#[cfg(feature = "verif-hooks")]
+impl IndContext {
+    /// (state tag, stored samples): 0 = PendingEval, 1 = Ready, 2 = Final (the single stored value)
+    pub fn verif_state(&self) -> (u8, Vec<f64>) {
+        match &self.state {
+            IndState::PendingEval(v) => (0, v.iter().map(|x| x.get()).collect()),
+            IndState::Ready(v) => (1, v.iter().map(|x| x.get()).collect()),
+            IndState::Final(x) => (2, vec![x.get()]),
+        }
+    }
+}
+
+#[cfg(feature = "verif-hooks")]
+impl AlgoContext {
+    /// The population in ranking order.
+    pub fn verif_population(&self) -> Vec<VerifPopEntry> {
+        self.individuals
+            .iter()
+            .map(|(key, ctx)| {
+                let (state_tag, samples) = ctx.verif_state();
+                VerifPopEntry {
+                    id: ctx.id,
+                    key_obj_func_val: key.obj_func_val.get(),
+                    state_tag,
+                    samples,
+                    value: ctx.value.clone(),
+                }
+            })
+            .collect()
+    }
+
+    pub fn verif_next_id(&self) -> usize {
+        self.next_id
+    }
+
+    pub fn verif_path_ctx(&self) -> &PathContext {
+        &self.path_ctx
     }
 }
 
